@@ -67,4 +67,28 @@ def updateWithFollowers {F : Type} (upd : World F → World F) (terms : List Nat
   | (w1, .error e) => (w1, .error e)
   | (w1, .ok _) => (upd w1, .ok ())
 
+section
+variable {F : Type} [Add F] [Sub F] [Mul F] [Div F] [Neg F] [LT F] [LE F] [BEq F]
+  [DecidableLT F] [DecidableLE F] [FloatLike F]
+
+/-- `ActuatorWrapper::update` when its terminal follows getters: `update_terminals()?`, then as in `Rrtk/Devices.lean` on the
+world the terminal update left.  Result: (world, what the inner settable accepted, whether the inner `update` ran, return value). -/
+def ActuatorWrapper.updateF (w : World F) (i : Nat) (fo : Followed F) (acc iu : UpdRet) :
+    World F × Option (TerminalData F) × Bool × UpdRet :=
+  match w.terminalUpdate i fo with
+  | (w1, .error e) => (w1, none, false, .error e)
+  | (w1, .ok _) =>
+    let r := ActuatorWrapper.update w1 i acc iu
+    (w1, r.1, r.2.1, r.2.2)
+
+/-- `GetterStateDeviceWrapper::update`: `inner.update()?`, `update_terminals()?`, then `inner.get()?` is written to the terminal -/
+def EncoderWrapper.updateF (w : World F) (i : Nat) (fo : Followed F) (iu : UpdRet) (g : Output (State F)) : World F × UpdRet :=
+  match iu with
+  | .error e => (w, .error e)
+  | .ok _ =>
+    match w.terminalUpdate i fo with
+    | (w1, .error e) => (w1, .error e)
+    | (w1, .ok _) => EncoderWrapper.update w1 i (.ok ()) g
+end
+
 end Rrtk
